@@ -525,6 +525,23 @@ class World:
         return True
 
 
+def _consume(w, f):
+    """somebody downstream takes file f out of the destination and prunes the directories this empties"""
+    rel = w.rec.files[f - 1]["rel"]
+    p = os.path.join(w.dst, rel)
+    if not os.path.exists(p):
+        return False
+    _real["remove"](p)
+    d = os.path.dirname(p)
+    while os.path.abspath(d) != os.path.abspath(w.dst) and os.path.isdir(d) and not os.listdir(d):
+        _real["rmdir"](d)
+        d = os.path.dirname(d)
+    ev = dict(ev="consume", f=f)
+    ev.update(w.project())
+    w.events.append(ev)
+    return True
+
+
 def selection(rec, opts):
     sel = []
     for f in rec.files:
@@ -567,6 +584,9 @@ def run_history(digital_rf, rec, work, name, opts, steps, crash_at=None, desc=""
                 w.deliver(st[1], st[2])
             elif st[0] == "vanish":
                 vanished = w.vanish(st[1]) or vanished
+            elif st[0] == "consume":
+                w.flush()
+                vanished = _consume(w, st[1]) or vanished
         except Crash:
             crashed = True
             w.cur_event = None
